@@ -54,36 +54,35 @@ Proof.
 Qed.
 
 (* the rebuild looks at the log only through log_get *)
-Lemma rebuild_ext l1 l2 names om :
+Lemma rebuild_ext l1 l2 :
   (forall id, log_get A l1 id = log_get A l2 id) ->
-  forall items lfs acc any, rebuild_items A o l1 names om items lfs acc any = rebuild_items A o l2 names om items lfs acc any.
+  forall items out sf lfs acc any, rebuild_items A o l1 out sf items lfs acc any = rebuild_items A o l2 out sf items lfs acc any.
 Proof.
   intro H.
   apply (forest_mind A
-           (fun t => match t with Node _ _ g => forall lfs acc any, rebuild_items A o l1 names om g lfs acc any = rebuild_items A o l2 names om g lfs acc any | _ => True end)
-           (fun f => forall lfs acc any, rebuild_items A o l1 names om f lfs acc any = rebuild_items A o l2 names om f lfs acc any)).
+           (fun t => match t with Node _ _ g => forall out sf lfs acc any, rebuild_items A o l1 out sf g lfs acc any = rebuild_items A o l2 out sf g lfs acc any | _ => True end)
+           (fun f => forall out sf lfs acc any, rebuild_items A o l1 out sf f lfs acc any = rebuild_items A o l2 out sf f lfs acc any)).
   - intros; exact I.
   - intros; exact I.
   - intros _ _ f IH. exact IH.
-  - intros lfs acc any. destruct lfs; reflexivity.
-  - intros k t IHt rest IHr lfs acc any. cbn [rebuild_items].
+  - intros out sf lfs acc any. destruct lfs; reflexivity.
+  - intros k t IHt rest IHr out sf lfs acc any. cbn [rebuild_items].
     destruct lfs as [|l lrest]; [reflexivity|].
     destruct l as [id|sub].
     + rewrite H. destruct (log_get A l2 id) as [[a|]|]; [|apply IHr|reflexivity].
       destruct (of_res (set_item_mt A o acc k (Leaf New (VNew a)))); cbn [mbind]; try reflexivity. apply IHr.
-    + destruct t as [s v|io d im|io im g]; [reflexivity| |].
+    + match goal with |- mbind ?x _ = mbind ?x _ => destruct x as [out_k| | | |] end; cbn [mbind]; try reflexivity.
+      destruct t as [s v|io d im|io im g]; [reflexivity| |].
       * destruct (o_inplace o).
         -- destruct (of_res (set_item_mt A o acc k (NonT io d im))); cbn [mbind]; try reflexivity. apply IHr.
-        -- destruct om; [reflexivity|].
-           destruct (of_res (set_item_mt A o acc k (NonT New d (result_meta o im names)))); cbn [mbind]; try reflexivity. apply IHr.
-      * destruct (of_res (rebuild_init A o names io im g (if om then Some acc else None))) as [init| | | |]; cbn [mbind]; try reflexivity.
+        -- destruct (of_res (nont_rebuild A o d im out_k)) as [v| | | |]; cbn [mbind]; try reflexivity.
+           destruct (of_res (set_item_mt A o acc k v)); cbn [mbind]; try reflexivity. apply IHr.
+      * destruct (of_res (rebuild_init A o io im g out_k None)) as [init| | | |]; cbn [mbind]; try reflexivity.
         rewrite IHt.
-        destruct (rebuild_items A o l2 names om g sub init false) as [[acc' any']| | | |]; cbn [mbind]; try reflexivity.
+        destruct (rebuild_items A o l2 out_k g g sub init false) as [[acc' any']| | | |]; cbn [mbind]; try reflexivity.
         cbn [fst snd].
-        destruct (om && negb (o_inplace o)).
-        -- destruct (negb (fe_true o && negb any')); [reflexivity|apply IHr].
-        -- destruct (negb (fe_true o && negb any')); [|apply IHr].
-           destruct (of_res (set_item_mt A o acc k (acc_tree A acc'))); cbn [mbind]; try reflexivity. apply IHr.
+        destruct (level_finish A o im g None (Some acc') any') as [v|]; [|apply IHr].
+        destruct (of_res (set_item_mt A o acc k v)); cbn [mbind]; try reflexivity. apply IHr.
 Qed.
 
 (* mt_order_free: two completion orders that complete the same tasks give the same answer; in particular every
@@ -95,14 +94,8 @@ Proof.
   intro H. unfold mt_front. destruct self as [| |so sm sf]; try reflexivity.
   destruct (of_res (flat_items A o (o_default o) con [] sm sf others sf 0)) as [[tasks lfs]| | | |]; cbn [mbind]; try reflexivity.
   cbn [fst snd].
-  destruct (of_res match out with
-                   | Some (Leaf _ _) => Raised EAttr
-                   | Some (NonT _ _ _) => Unmodelled
-                   | Some (Node oo om og) => Ok (Some (mkAcc A oo om og))
-                   | None => Ok None
-                   end) as [oa| | | |]; cbn [mbind]; try reflexivity.
-  destruct (of_res (rebuild_init A o names so sm sf oa)) as [init| | | |]; cbn [mbind]; try reflexivity.
-  rewrite (rebuild_ext _ _ names _ (log_get_same tasks pi1 pi2 H)). reflexivity.
+  destruct (of_res (rebuild_init A o so sm sf out names)) as [init| | | |]; cbn [mbind]; try reflexivity.
+  rewrite (rebuild_ext _ _ (log_get_same tasks pi1 pi2 H)). reflexivity.
 Qed.
 
 Theorem mt_order_free con propagate self others out names pi1 pi2 :
@@ -112,17 +105,16 @@ Proof.
   intro P. apply mt_same_completed. intro id. split; apply Permutation_in; [assumption|now apply Permutation_sym].
 Qed.
 
-
 (* ------------------------------------------------------------------ thread-pool form = single-threaded form
-   domain: no out= (S16, C20-d), no default= (S15), filter_empty is True or False (C12-b), no names= (C12-c),
-   and — in place — no non-tensor entry (the thread-pool form re-sets the entry itself, the other form a copy of it). *)
+   for every point of the option lattice (out=, default=, filter_empty None / True / False, names=, overrides, checked,
+   call_on_nested, named ...) — outside two corners that concern non-tensor entries and in-place calls:
+     * a non-tensor entry together with out= or inplace (C20-f: the single-threaded form keeps out's entry / re-sets a copy,
+       the thread-pool form writes self's entry),
+     * inplace together with default= (the stand-in self.empty(recurse=True) is taken before / while self is written). *)
 Section Fusion.
-Variable b : bool.
-Hypothesis Hfe : o_fe o = Some b.
-Hypothesis Hdef : o_default o = false.
 
-Definition unopt (sm : meta) (acc : option racc) : racc :=
-  match acc with Some a => a | None => make_result A o sm None end.
+Definition unopt (sm : meta) (names : option dnames) (acc : option racc) : racc :=
+  match acc with Some a => a | None => make_result A o sm names end.
 
 Definition log_ok (log : list (nat * option A)) (base : nat) (tasks : list (task A)) : Prop :=
   forall i t, nth_error tasks i = Some t -> log_get A log (base + i) = Some (exec A fn t).
@@ -143,9 +135,9 @@ Fixpoint nont_free (f : forest) : bool :=
   end.
 
 (* the same outcome, the thread-pool form holding the eagerly created result *)
-Definition same_outcome (sm : meta) (st : res (option racc * bool)) (mt : mres (racc * bool)) : Prop :=
+Definition same_outcome (sm : meta) (names : option dnames) (st : res (option racc * bool)) (mt : mres (racc * bool)) : Prop :=
   match st with
-  | Ok (r, a) => mt = MOk (unopt sm r, a)
+  | Ok (r, a) => mt = MOk (unopt sm names r, a)
   | Raised e => mt = MRaised e
   | Unmodelled => mt = MUnmodelled
   end.
@@ -162,7 +154,7 @@ Proof.
   - destruct (m_lock (r_meta A r)); [discriminate|]. intro H. now inv H.
 Qed.
 
-(* the invariant on the result under construction: when it is a new object written without validation it is not locked *)
+(* the invariant on the result under construction: when it is written without validation (and not in place) it is not locked *)
 Definition lock_inv (r : racc) : Prop := o_inplace o = false -> o_checked o = true -> m_lock (r_meta A r) = false.
 
 Lemma set_item_mt_eq r k v : lock_inv r -> set_item_mt A o r k v = set_item A o r k v.
@@ -179,68 +171,97 @@ Proof.
   destruct (oget A ot k) as [[t|]| |]; cbn [bind]; try reflexivity. now rewrite IH.
 Qed.
 
+Lemma level_finish_unopt sm sf names res any :
+  level_finish A o sm sf names res any = level_finish A o sm sf names (Some (unopt sm names res)) any.
+Proof. unfold level_finish, unopt. destruct res; reflexivity. Qed.
+
+Lemma level_init_props so sm sf out init :
+  level_init A o so sm sf out = Ok init ->
+  (out <> None -> init <> None) /\ (o_inplace o = true -> init <> None) /\ (forall names, lock_inv (unopt sm names init)).
+Proof.
+  unfold level_init, lock_inv. destruct (o_inplace o) eqn:Ei.
+  - intro H. inv H. repeat split; try discriminate.
+  - destruct out as [[| |oo om og]|]; try discriminate.
+    + destruct (m_lock om) eqn:El; [discriminate|].
+      destruct (match o_bs o with Some b => negb (list_eqb Nat.eqb b (m_bs om)) | None => false end); [discriminate|].
+      destruct (o_dev o) as [d|].
+      * destruct (odev_eqb d (m_dev om)). { intro H. inv H. repeat split; try discriminate. intros; exact El. }
+        destruct (o_checked o); [|discriminate]. destruct d; [|discriminate]. intro H. inv H.
+        repeat split; try discriminate. intros; exact El.
+      * intro H. inv H. repeat split; try discriminate. intros; exact El.
+    + intro H. inv H. repeat split; try congruence; intros; try reflexivity; auto.
+Qed.
+
 Definition fusion_at (items : forest) : Prop :=
-  forall con prefix sm sf others base acc any,
-    (o_inplace o = true -> nont_free items = true /\ acc <> None) ->
-    lock_inv (unopt sm acc) ->
-    match flat_items A o false con prefix sm sf others items base with
+  forall con prefix sm sf others out names base acc any,
+    (o_inplace o = true -> o_default o = false /\ nont_free items = true /\ acc <> None) ->
+    (out <> None -> nont_free items = true /\ acc <> None) ->
+    lock_inv (unopt sm names acc) ->
+    match flat_items A o (o_default o) con prefix sm sf others items base with
     | Ok (tasks, lfs) =>
         forall log, log_ok log base tasks ->
-        same_outcome sm (apply_items A o fn con prefix sm sf others None None items acc any)
-                     (rebuild_items A o log None false items lfs (unopt sm acc) any)
-        /\ (forall r a, apply_items A o fn con prefix sm sf others None None items acc any = Ok (r, a) ->
-               lock_inv (unopt sm r) /\ (acc <> None -> r <> None))
-    | _ => forall x, apply_items A o fn con prefix sm sf others None None items acc any <> Ok x
+        same_outcome sm names (apply_items A o fn con prefix sm sf others out names items acc any)
+                     (rebuild_items A o log out sf items lfs (unopt sm names acc) any)
+        /\ (forall r a, apply_items A o fn con prefix sm sf others out names items acc any = Ok (r, a) ->
+               lock_inv (unopt sm names r) /\ (acc <> None -> r <> None))
+    | _ => forall x, apply_items A o fn con prefix sm sf others out names items acc any <> Ok x
     end.
 
-Lemma level_finish_fe im g resn anyn :
-  level_finish A o im g None resn anyn = if fe_true o && negb anyn then None else Some (acc_tree A (unopt im resn)).
-Proof. unfold level_finish, fe_true, unopt. rewrite Hfe. destruct b, anyn; reflexivity. Qed.
-
 (* once the contribution [t] of an item is known, both forms write it and go on with the rest *)
-Definition st_step con prefix sm sf others k rest acc any (t : option tree) : res (option racc * bool) :=
+Definition st_step con prefix sm sf others out names k rest acc any (t : option tree) : res (option racc * bool) :=
   match t with
-  | Some v => bind (set_item A o (unopt sm acc) k v) (fun acc' =>
-              apply_items A o fn con prefix sm sf others None None rest (Some acc') true)
-  | None => apply_items A o fn con prefix sm sf others None None rest acc any
+  | Some v => bind (set_item A o (unopt sm names acc) k v) (fun acc' =>
+              apply_items A o fn con prefix sm sf others out names rest (Some acc') true)
+  | None => apply_items A o fn con prefix sm sf others out names rest acc any
   end.
-Definition mt_step log k rest lr sm acc any (t : option tree) : mres (racc * bool) :=
+Definition mt_step log out sf k rest lr sm names acc any (t : option tree) : mres (racc * bool) :=
   match t with
-  | Some v => mbind (of_res (set_item_mt A o (unopt sm acc) k v)) (fun acc' => rebuild_items A o log None false rest lr acc' true)
-  | None => rebuild_items A o log None false rest lr (unopt sm acc) any
+  | Some v => mbind (of_res (set_item_mt A o (unopt sm names acc) k v)) (fun acc' => rebuild_items A o log out sf rest lr acc' true)
+  | None => rebuild_items A o log out sf rest lr (unopt sm names acc) any
   end.
 
-Lemma step_fusion con prefix sm sf others k rest acc any base' t :
+Lemma step_fusion con prefix sm sf others out names k rest acc any base' t :
   fusion_at rest ->
-  (o_inplace o = true -> nont_free rest = true /\ acc <> None) ->
-  lock_inv (unopt sm acc) ->
-  match flat_items A o false con prefix sm sf others rest base' with
+  (o_inplace o = true -> o_default o = false /\ nont_free rest = true /\ acc <> None) ->
+  (out <> None -> nont_free rest = true /\ acc <> None) ->
+  lock_inv (unopt sm names acc) ->
+  match flat_items A o (o_default o) con prefix sm sf others rest base' with
   | Ok (tr, lr) =>
       forall log, log_ok log base' tr ->
-      same_outcome sm (st_step con prefix sm sf others k rest acc any t) (mt_step log k rest lr sm acc any t)
-      /\ (forall r a, st_step con prefix sm sf others k rest acc any t = Ok (r, a) ->
-             lock_inv (unopt sm r) /\ (acc <> None -> r <> None))
-  | _ => forall x, st_step con prefix sm sf others k rest acc any t <> Ok x
+      same_outcome sm names (st_step con prefix sm sf others out names k rest acc any t) (mt_step log out sf k rest lr sm names acc any t)
+      /\ (forall r a, st_step con prefix sm sf others out names k rest acc any t = Ok (r, a) ->
+             lock_inv (unopt sm names r) /\ (acc <> None -> r <> None))
+  | _ => forall x, st_step con prefix sm sf others out names k rest acc any t <> Ok x
   end.
 Proof.
-  intros IHr Hip Hl. destruct t as [v|]; cbn [st_step mt_step].
-  - destruct (set_item A o (unopt sm acc) k v) as [acc'| |] eqn:Eset; cbn [bind].
-    + assert (Hl' : lock_inv (unopt sm (Some acc'))).
+  intros IHr Hip Hop Hl. destruct t as [v|]; cbn [st_step mt_step].
+  - destruct (set_item A o (unopt sm names acc) k v) as [acc'| |] eqn:Eset; cbn [bind].
+    + assert (Hl' : lock_inv (unopt sm names (Some acc'))).
       { intros Hi Hc. cbn [unopt]. rewrite (set_item_meta _ _ _ _ Hc Eset). now apply Hl. }
-      assert (Hip2 : o_inplace o = true -> nont_free rest = true /\ Some acc' <> None).
-      { intro Hi. split; [apply (Hip Hi)|discriminate]. }
-      specialize (IHr con prefix sm sf others base' (Some acc') true Hip2 Hl').
-      destruct (flat_items A o false con prefix sm sf others rest base') as [[tr lr]| |]; [|exact IHr|exact IHr].
+      assert (Hip2 : o_inplace o = true -> o_default o = false /\ nont_free rest = true /\ Some acc' <> None).
+      { intro Hi. destruct (Hip Hi) as (D & N & _). repeat split; [exact D|exact N|discriminate]. }
+      assert (Hop2 : out <> None -> nont_free rest = true /\ Some acc' <> None).
+      { intro Ho. split; [apply (Hop Ho)|discriminate]. }
+      specialize (IHr con prefix sm sf others out names base' (Some acc') true Hip2 Hop2 Hl').
+      destruct (flat_items A o (o_default o) con prefix sm sf others rest base') as [[tr lr]| |]; [|exact IHr|exact IHr].
       intros log Hlog. destruct (IHr log Hlog) as [S1 S2].
       rewrite set_item_mt_eq, Eset by exact Hl. cbn [of_res mbind]. split; [exact S1|].
       intros r a Hra. destruct (S2 r a Hra) as [L1 L2]. split; [exact L1|]. intros _. apply L2. discriminate.
-    + destruct (flat_items A o false con prefix sm sf others rest base') as [[tr lr]| |]; try (intros x; discriminate).
+    + destruct (flat_items A o (o_default o) con prefix sm sf others rest base') as [[tr lr]| |]; try (intros x; discriminate).
       intros log _. rewrite set_item_mt_eq, Eset by exact Hl. cbn [of_res mbind same_outcome]. split; [reflexivity|discriminate].
-    + destruct (flat_items A o false con prefix sm sf others rest base') as [[tr lr]| |]; try (intros x; discriminate).
+    + destruct (flat_items A o (o_default o) con prefix sm sf others rest base') as [[tr lr]| |]; try (intros x; discriminate).
       intros log _. rewrite set_item_mt_eq, Eset by exact Hl. cbn [of_res mbind same_outcome]. split; [reflexivity|discriminate].
-  - specialize (IHr con prefix sm sf others base' acc any Hip Hl).
-    destruct (flat_items A o false con prefix sm sf others rest base') as [[tr lr]| |]; exact IHr.
+  - specialize (IHr con prefix sm sf others out names base' acc any Hip Hop Hl).
+    destruct (flat_items A o (o_default o) con prefix sm sf others rest base') as [[tr lr]| |]; exact IHr.
 Qed.
+
+
+Ltac dflat :=
+  cbn [bind fst snd];
+  match goal with
+  | |- context [flat_items A o (o_default o) ?c ?p ?m ?f ?ot ?it ?b] =>
+      destruct (flat_items A o (o_default o) c p m f ot it b) as [[? ?]| |]
+  end; cbn [bind fst snd]; try (intros ?x; discriminate).
 
 Lemma fusion : forall items, fusion_at items.
 Proof.
@@ -248,81 +269,96 @@ Proof.
   - intros; exact I.
   - intros; exact I.
   - intros _ _ f IH. exact IH.
-  - intros con prefix sm sf others base acc any _ Hl. cbn [flat_items]. intros log _. cbn [apply_items same_outcome rebuild_items].
+  - intros con prefix sm sf others out names base acc any _ _ Hl. cbn [flat_items]. intros log _. cbn [apply_items same_outcome rebuild_items].
     split; [reflexivity|]. intros r a H. inv H. split; [exact Hl|auto].
-  - intros k item IHt rest IHr con prefix sm sf others base acc any Hip Hl.
-    assert (Hip' : o_inplace o = true -> nont_free rest = true /\ acc <> None).
-    { intro Hi. destruct (Hip Hi) as [Hnf Ha]. cbn [nont_free] in Hnf. apply andb_true_iff in Hnf. tauto. }
-    cbn [flat_items apply_items]. rewrite Hdef.
+  - intros k item IHt rest IHr con prefix sm sf others out names base acc any Hip Hop Hl.
+    assert (Hip' : o_inplace o = true -> o_default o = false /\ nont_free rest = true /\ acc <> None).
+    { intro Hi. destruct (Hip Hi) as (D & Hnf & Ha). cbn [nont_free] in Hnf. apply andb_true_iff in Hnf. tauto. }
+    assert (Hop' : out <> None -> nont_free rest = true /\ acc <> None).
+    { intro Ho. destruct (Hop Ho) as (Hnf & Ha). cbn [nont_free] in Hnf. apply andb_true_iff in Hnf. tauto. }
+    cbn [flat_items apply_items].
     change (fun t : option tree =>
               match t with
-              | Some v => bind (set_item A o match acc with Some a => a | None => make_result A o sm None end k v)
-                            (fun acc' => apply_items A o fn con prefix sm sf others None None rest (Some acc') true)
-              | None => apply_items A o fn con prefix sm sf others None None rest acc any
-              end) with (st_step con prefix sm sf others k rest acc any).
+              | Some v => bind (set_item A o match acc with Some a => a | None => make_result A o sm names end k v)
+                            (fun acc' => apply_items A o fn con prefix sm sf others out names rest (Some acc') true)
+              | None => apply_items A o fn con prefix sm sf others out names rest acc any
+              end) with (st_step con prefix sm sf others out names k rest acc any).
     destruct (negb con && negb (o_is_leaf o (kind_of A item))) eqn:Edisp.
-    + (* nested dispatch *)
-      match goal with |- context [others_node A false (r_meta A ?c) (r_f A ?c) others k] =>
-        rewrite (others_node_nodflt (r_meta A c) (r_f A c) sm sf others k) end.
-      destruct (others_node A false sm sf others k) as [others'| |]; cbn [bind]; try (intros x; discriminate).
+    + (* nested dispatch: the operands of the nested level are the same in both forms *)
+      assert (Eon : others_node A (o_default o)
+                      (r_meta A match acc with Some a => if o_inplace o then a else mkAcc A New sm sf | None => mkAcc A New sm sf end)
+                      (r_f A match acc with Some a => if o_inplace o then a else mkAcc A New sm sf | None => mkAcc A New sm sf end) others k
+                    = others_node A (o_default o) sm sf others k).
+      { destruct acc as [a|]; [|reflexivity]. destruct (o_inplace o) eqn:Ei; [|reflexivity].
+        destruct (Hip eq_refl) as (D & _). rewrite D. apply others_node_nodflt. }
+      rewrite Eon. clear Eon.
+      destruct (others_node A (o_default o) sm sf others k) as [others'| |]; cbn [bind]; try (intros x; discriminate).
+      (* out[key]: read from the object being written, in both forms *)
+      assert (Eout : match out, acc with Some _, Some a => if o_inplace o then out else Some (acc_tree A a) | _, _ => out end
+                     = match out with Some _ => if o_inplace o then out else Some (acc_tree A (unopt sm names acc)) | None => None end).
+      { destruct out as [X|]; [|reflexivity]. destruct acc as [a|]; [reflexivity|]. exfalso. destruct (Hop ltac:(discriminate)) as (_ & Ha). now apply Ha. }
       destruct item as [s v|io d im|io im g].
-      * intros x; discriminate.
-      * (* a non-tensor entry: no task *)
-        cbn [out_child bind fst snd List.length app]. rewrite Nat.add_0_r.
-        pose proof (step_fusion con prefix sm sf others k rest acc any base (Some (nont_apply A o d im None)) IHr Hip' Hl) as S.
-        destruct (flat_items A o false con prefix sm sf others rest base) as [[tr lr]| |]; cbn [bind]; [|exact S|exact S].
+      * intros x Hx. destruct (out_child A _ k); discriminate.
+      * (* a non-tensor entry: no task; neither in place nor with out= here *)
+        cbn [bind fst snd List.length app]. rewrite Nat.add_0_r.
+        assert (Hi : o_inplace o = false).
+        { destruct (o_inplace o) eqn:Ei; [|reflexivity]. destruct (Hip eq_refl) as (_ & Hnf & _). cbn [nont_free] in Hnf. discriminate. }
+        assert (Ho : out = None).
+        { destruct out; [|reflexivity]. destruct (Hop ltac:(discriminate)) as (Hnf & _). cbn [nont_free] in Hnf. discriminate. }
+        subst out. cbn [out_child bind].
+        pose proof (step_fusion con prefix sm sf others None names k rest acc any base (Some (nont_apply A o d im None)) IHr Hip' Hop' Hl) as S.
+        destruct (flat_items A o (o_default o) con prefix sm sf others rest base) as [[tr lr]| |]; cbn [bind]; [|exact S|exact S].
         intros log Hlog. cbn [fst snd app] in Hlog. destruct (S log Hlog) as [S1 S2]. split; [|exact S2].
-        cbn [rebuild_items].
-        destruct (o_inplace o) eqn:Ei.
-        { exfalso. destruct (Hip eq_refl) as [Hnf _]. cbn [nont_free] in Hnf. discriminate. }
-        exact S1.
+        cbn [rebuild_items out_child of_res mbind]. rewrite Hi. cbn [nont_rebuild of_res mbind]. exact S1.
       * (* a nested tensordict *)
-        assert (Hipg : o_inplace o = true -> nont_free g = true /\ (if o_inplace o then Some (mkAcc A io im g) else None) <> None).
-        { intro Hi. destruct (Hip Hi) as [Hnf _]. cbn [nont_free] in Hnf. apply andb_true_iff in Hnf. rewrite Hi. split; [tauto|discriminate]. }
-        assert (Hinit : level_init A o io im g None = Ok (if o_inplace o then Some (mkAcc A io im g) else None)).
-        { unfold level_init. destruct (o_inplace o); reflexivity. }
-        assert (Hlg : lock_inv (unopt im (if o_inplace o then Some (mkAcc A io im g) else None))).
-        { intros Hi _. rewrite Hi. reflexivity. }
-        specialize (IHt false (prefix ++ [k])%list im g others' base (if o_inplace o then Some (mkAcc A io im g) else None) false Hipg Hlg).
-        cbn [out_child bind]. rewrite Hinit. cbn [bind].
-        destruct (flat_items A o false false (prefix ++ [k]) im g others' g base) as [[tg lg]| |]; cbn [bind fst snd].
+        rewrite Eout. clear Eout.
+        set (out_now := match out with Some _ => if o_inplace o then out else Some (acc_tree A (unopt sm names acc)) | None => None end).
+        destruct (out_child A out_now k) as [out_k| |] eqn:Eok; cbn [bind].
+        2:{ dflat. dflat. intros log _. split; [|discriminate]. cbn [rebuild_items same_outcome]. fold out_now. rewrite Eok. reflexivity. }
+        2:{ dflat. dflat. intros log _. split; [|discriminate]. cbn [rebuild_items same_outcome]. fold out_now. rewrite Eok. reflexivity. }
+        assert (Hokn : out_k <> None -> out <> None).
+        { intros Hk Ho. subst out. unfold out_now in Eok. cbn [out_child] in Eok. inv Eok. now apply Hk. }
+        destruct (level_init A o io im g out_k) as [init| |] eqn:Einit; cbn [bind].
+        2:{ dflat. dflat. intros log _. split; [|discriminate]. cbn [rebuild_items same_outcome]. fold out_now. rewrite Eok. cbn [of_res mbind].
+            unfold rebuild_init. rewrite Einit. reflexivity. }
+        2:{ dflat. dflat. intros log _. split; [|discriminate]. cbn [rebuild_items same_outcome]. fold out_now. rewrite Eok. cbn [of_res mbind].
+            unfold rebuild_init. rewrite Einit. reflexivity. }
+        destruct (level_init_props io im g out_k init Einit) as (P1 & P2 & P3).
+        assert (Hipg : o_inplace o = true -> o_default o = false /\ nont_free g = true /\ init <> None).
+        { intro Hi. destruct (Hip Hi) as (D & Hnf & _). cbn [nont_free] in Hnf. apply andb_true_iff in Hnf. repeat split; [exact D|tauto|now apply P2]. }
+        assert (Hopg : out_k <> None -> nont_free g = true /\ init <> None).
+        { intro Hk. destruct (Hop (Hokn Hk)) as (Hnf & _). cbn [nont_free] in Hnf. apply andb_true_iff in Hnf. split; [tauto|now apply P1]. }
+        specialize (IHt false (prefix ++ [k])%list im g others' out_k None base init false Hipg Hopg (P3 None)).
+        destruct (flat_items A o (o_default o) false (prefix ++ [k]) im g others' g base) as [[tg lg]| |]; cbn [bind fst snd].
         2:{ intros x Hx. apply bind_ok' in Hx. destruct Hx as (y & Hy & _). apply bind_ok' in Hy. destruct Hy as (z & Hz & _). exact (IHt z Hz). }
         2:{ intros x Hx. apply bind_ok' in Hx. destruct Hx as (y & Hy & _). apply bind_ok' in Hy. destruct Hy as (z & Hz & _). exact (IHt z Hz). }
-        destruct (apply_items A o fn false (prefix ++ [k]) im g others' None None g (if o_inplace o then Some (mkAcc A io im g) else None) false)
-          as [[resn anyn]| |] eqn:Enest; cbn [bind fst snd].
-        -- pose proof (step_fusion con prefix sm sf others k rest acc any (base + List.length tg)
-                         (level_finish A o im g None resn anyn) IHr Hip' Hl) as S.
-           destruct (flat_items A o false con prefix sm sf others rest (base + List.length tg)) as [[tr lr]| |]; cbn [bind]; [|exact S|exact S].
+        assert (Hri : rebuild_init A o io im g out_k None = Ok (unopt im None init)).
+        { unfold rebuild_init. rewrite Einit. reflexivity. }
+        destruct (apply_items A o fn false (prefix ++ [k]) im g others' out_k None g init false) as [[resn anyn]| |] eqn:Enest; cbn [bind fst snd].
+        -- pose proof (step_fusion con prefix sm sf others out names k rest acc any (base + List.length tg)
+                         (level_finish A o im g None resn anyn) IHr Hip' Hop' Hl) as S.
+           destruct (flat_items A o (o_default o) con prefix sm sf others rest (base + List.length tg)) as [[tr lr]| |]; cbn [bind]; [|exact S|exact S].
            intros log Hlog. cbn [fst snd] in Hlog. apply log_ok_app in Hlog. destruct Hlog as [Hlg1 Hlg2].
            destruct (IHt log Hlg1) as [N1 _]. cbn [same_outcome] in N1.
            destruct (S log Hlg2) as [S1 S2]. split; [|exact S2].
-           cbn [rebuild_items].
-           assert (Hri : rebuild_init A o None io im g None = Ok (unopt im (if o_inplace o then Some (mkAcc A io im g) else None))).
-           { unfold rebuild_init. destruct (o_inplace o); reflexivity. }
-           rewrite Hri. cbn [of_res mbind]. rewrite N1. cbn [mbind fst snd andb].
-           rewrite level_finish_fe in S1 |- *.
-           destruct (fe_true o && negb anyn); cbn [negb] in *; exact S1.
-        -- destruct (flat_items A o false con prefix sm sf others rest (base + List.length tg)) as [[tr lr]| |]; cbn [bind];
+           cbn [rebuild_items]. fold out_now. rewrite Eok. cbn [of_res mbind]. rewrite Hri. cbn [of_res mbind]. rewrite N1. cbn [mbind fst snd].
+           rewrite <- level_finish_unopt. unfold mt_step in S1.
+           destruct (level_finish A o im g None resn anyn); exact S1.
+        -- destruct (flat_items A o (o_default o) con prefix sm sf others rest (base + List.length tg)) as [[tr lr]| |]; cbn [bind];
              try (intros x; discriminate).
            intros log Hlog. cbn [fst snd] in Hlog. apply log_ok_app in Hlog. destruct Hlog as [Hlg1 Hlg2].
            destruct (IHt log Hlg1) as [N1 _]. cbn [same_outcome] in N1. split; [|discriminate].
-           cbn [rebuild_items same_outcome].
-           assert (Hri : rebuild_init A o None io im g None = Ok (unopt im (if o_inplace o then Some (mkAcc A io im g) else None))).
-           { unfold rebuild_init. destruct (o_inplace o); reflexivity. }
-           rewrite Hri. cbn [of_res mbind]. rewrite N1. reflexivity.
-        -- destruct (flat_items A o false con prefix sm sf others rest (base + List.length tg)) as [[tr lr]| |]; cbn [bind];
+           cbn [rebuild_items same_outcome]. fold out_now. rewrite Eok. cbn [of_res mbind]. rewrite Hri. cbn [of_res mbind]. rewrite N1. reflexivity.
+        -- destruct (flat_items A o (o_default o) con prefix sm sf others rest (base + List.length tg)) as [[tr lr]| |]; cbn [bind];
              try (intros x; discriminate).
            intros log Hlog. cbn [fst snd] in Hlog. apply log_ok_app in Hlog. destruct Hlog as [Hlg1 Hlg2].
            destruct (IHt log Hlg1) as [N1 _]. cbn [same_outcome] in N1. split; [|discriminate].
-           cbn [rebuild_items same_outcome].
-           assert (Hri : rebuild_init A o None io im g None = Ok (unopt im (if o_inplace o then Some (mkAcc A io im g) else None))).
-           { unfold rebuild_init. destruct (o_inplace o); reflexivity. }
-           rewrite Hri. cbn [of_res mbind]. rewrite N1. reflexivity.
+           cbn [rebuild_items same_outcome]. fold out_now. rewrite Eok. cbn [of_res mbind]. rewrite Hri. cbn [of_res mbind]. rewrite N1. reflexivity.
     + (* fn is called on the item: one task *)
-      destruct (others_leaf A false others k) as [args| |]; cbn [bind fst snd List.length]; try (intros x; discriminate).
-      pose proof (step_fusion con prefix sm sf others k rest acc any (base + 1)
-                    (option_map (fun a => Leaf New (VNew a)) (fn (keyarg o prefix k) item args)) IHr Hip' Hl) as S.
-      destruct (flat_items A o false con prefix sm sf others rest (base + 1)) as [[tr lr]| |]; cbn [bind]; [|exact S|exact S].
+      destruct (others_leaf A (o_default o) others k) as [args| |]; cbn [bind fst snd List.length]; try (intros x; discriminate).
+      pose proof (step_fusion con prefix sm sf others out names k rest acc any (base + 1)
+                    (option_map (fun a => Leaf New (VNew a)) (fn (keyarg o prefix k) item args)) IHr Hip' Hop' Hl) as S.
+      destruct (flat_items A o (o_default o) con prefix sm sf others rest (base + 1)) as [[tr lr]| |]; cbn [bind]; [|exact S|exact S].
       intros log Hlog. cbn [fst snd] in Hlog.
       apply (log_ok_app log base [_] tr) in Hlog. destruct Hlog as [H1 H2]. cbn [List.length] in H2.
       destruct (S log H2) as [S1 S2]. split; [|exact S2].
@@ -332,48 +368,57 @@ Qed.
 
 
 (* mt_equals_st: with every task completed — in whatever order — the thread-pool form returns exactly what the
-   single-threaded form returns (result, exception class) whenever all operand lookups succeed; when a lookup fails
+   single-threaded form returns (result or exception class) whenever all operand lookups succeed; when a lookup fails
    neither form returns. *)
-Theorem mt_equals_st : forall con propagate so sm sf others pi,
-  (o_inplace o = true -> nont_free sf = true) ->
-  (forall tasks lfs, flat_items A o false con [] sm sf others sf 0 = Ok (tasks, lfs) ->
+Theorem mt_equals_st : forall con propagate so sm sf others out names pi,
+  (o_inplace o = true -> o_default o = false /\ nont_free sf = true) ->
+  (out <> None -> nont_free sf = true) ->
+  (forall tasks lfs, flat_items A o (o_default o) con [] sm sf others sf 0 = Ok (tasks, lfs) ->
                      forall id, id < List.length tasks -> In id pi) ->
-  match flat_items A o false con [] sm sf others sf 0 with
-  | Ok _ => mt_front A o fn con propagate (Node so sm sf) others None None pi
-            = st_front A o fn con propagate (Node so sm sf) others None None
-  | _ => forall r, st_front A o fn con propagate (Node so sm sf) others None None <> MOk r
-                   /\ mt_front A o fn con propagate (Node so sm sf) others None None pi <> MOk r
+  match flat_items A o (o_default o) con [] sm sf others sf 0 with
+  | Ok _ => mt_front A o fn con propagate (Node so sm sf) others out names pi
+            = st_front A o fn con propagate (Node so sm sf) others out names
+  | _ => forall r, st_front A o fn con propagate (Node so sm sf) others out names <> MOk r
+                   /\ mt_front A o fn con propagate (Node so sm sf) others out names pi <> MOk r
   end.
 Proof.
-  intros con propagate so sm sf others pi Hnf Hall.
-  set (init := if o_inplace o then Some (mkAcc A so sm sf) else None).
-  assert (Hip : o_inplace o = true -> nont_free sf = true /\ init <> None).
-  { intro Hi. split; [now apply Hnf|]. unfold init. rewrite Hi. discriminate. }
-  assert (Hl : lock_inv (unopt sm init)).
-  { intros Hi _. unfold init. rewrite Hi. reflexivity. }
-  pose proof (fusion sf con [] sm sf others 0 init false Hip Hl) as F.
-  unfold mt_front, st_front, front, apply_nest. rewrite Hdef.
-  assert (Hinit : level_init A o so sm sf None = Ok init).
-  { unfold level_init, init. destruct (o_inplace o); reflexivity. }
-  rewrite Hinit. cbn [bind].
-  destruct (flat_items A o false con [] sm sf others sf 0) as [[tasks lfs]|e|] eqn:Efl.
-  - specialize (Hall tasks lfs eq_refl). cbn [of_res mbind fst snd].
-    assert (Hri : rebuild_init A o None so sm sf None = Ok (unopt sm init)).
-    { unfold rebuild_init, init. destruct (o_inplace o); reflexivity. }
-    rewrite Hri. cbn [of_res mbind is_none negb].
-    destruct (F (run_tasks A fn tasks pi)) as [S1 _].
-    { intros i t Hi. cbn [Nat.add]. rewrite log_get_run, Hi.
-      assert (Hin : In i pi) by (apply Hall; apply nth_error_Some; congruence).
-      apply existsb_eqb_in in Hin. rewrite Hin. reflexivity. }
-    destruct (apply_items A o fn con [] sm sf others None None sf init false) as [[res any']| |]; cbn [same_outcome] in S1;
-      rewrite S1; cbn [bind mbind of_res fst snd]; try reflexivity.
-    rewrite orb_false_r, level_finish_fe. reflexivity.
-  - intro r. cbn [of_res mbind]. split; [|discriminate].
-    intro H. destruct (apply_items A o fn con [] sm sf others None None sf init false) as [x| |] eqn:Ea; cbn [bind of_res] in H; try discriminate.
-    exact (F x eq_refl).
-  - intro r. cbn [of_res mbind]. split; [|discriminate].
-    intro H. destruct (apply_items A o fn con [] sm sf others None None sf init false) as [x| |] eqn:Ea; cbn [bind of_res] in H; try discriminate.
-    exact (F x eq_refl).
+  intros con propagate so sm sf others out names pi Hnf Hout Hall.
+  unfold mt_front, st_front, front, apply_nest.
+  destruct (level_init A o so sm sf out) as [init| |] eqn:Einit.
+  - destruct (level_init_props so sm sf out init Einit) as (P1 & P2 & P3).
+    assert (Hip : o_inplace o = true -> o_default o = false /\ nont_free sf = true /\ init <> None).
+    { intro Hi. destruct (Hnf Hi). repeat split; try assumption. now apply P2. }
+    assert (Hop : out <> None -> nont_free sf = true /\ init <> None).
+    { intro Ho. split; [now apply Hout|now apply P1]. }
+    pose proof (fusion sf con [] sm sf others out names 0 init false Hip Hop (P3 names)) as F.
+    cbn [bind].
+    destruct (flat_items A o (o_default o) con [] sm sf others sf 0) as [[tasks lfs]|e|] eqn:Efl.
+    + specialize (Hall tasks lfs eq_refl). cbn [of_res mbind fst snd].
+      assert (Hri : rebuild_init A o so sm sf out names = Ok (unopt sm names init)).
+      { unfold rebuild_init. rewrite Einit. reflexivity. }
+      rewrite Hri. cbn [of_res mbind].
+      destruct (F (run_tasks A fn tasks pi)) as [S1 _].
+      { intros i t Hi. cbn [Nat.add]. rewrite log_get_run, Hi.
+        assert (Hin : In i pi) by (apply Hall; apply nth_error_Some; congruence).
+        apply existsb_eqb_in in Hin. rewrite Hin. reflexivity. }
+      destruct (apply_items A o fn con [] sm sf others out names sf init false) as [[res any']| |]; cbn [same_outcome] in S1;
+        rewrite S1; cbn [bind mbind of_res fst snd]; try reflexivity; try (rewrite <- level_finish_unopt; reflexivity).
+    + intro r. cbn [of_res mbind]. split; [|discriminate].
+      intro H. destruct (apply_items A o fn con [] sm sf others out names sf init false) as [x| |] eqn:Ea; cbn [bind of_res] in H; try discriminate.
+      exact (F x eq_refl).
+    + intro r. cbn [of_res mbind]. split; [|discriminate].
+      intro H. destruct (apply_items A o fn con [] sm sf others out names sf init false) as [x| |] eqn:Ea; cbn [bind of_res] in H; try discriminate.
+      exact (F x eq_refl).
+  - cbn [bind of_res].
+    destruct (flat_items A o (o_default o) con [] sm sf others sf 0) as [[tasks lfs]|e'|]; cbn [of_res mbind].
+    + unfold rebuild_init. rewrite Einit. reflexivity.
+    + intro r. split; discriminate.
+    + intro r. split; discriminate.
+  - cbn [bind of_res].
+    destruct (flat_items A o (o_default o) con [] sm sf others sf 0) as [[tasks lfs]|e'|]; cbn [of_res mbind].
+    + unfold rebuild_init. rewrite Einit. reflexivity.
+    + intro r. split; discriminate.
+    + intro r. split; discriminate.
 Qed.
 
 End Fusion.
